@@ -91,6 +91,7 @@ fn to_report(case: Option<&WCase>, out: Outcome, prop: &str) -> Report {
         counters: counters(&out.stats),
         sets,
         nontrivial: nt,
+        executions: 1,
     }
 }
 
@@ -209,7 +210,7 @@ fn op_variants(k: &OpKind) -> Vec<OpKind> {
 
 pub fn shrink_case(mut case: WCase, prop: &str, oracle: &str) -> WCase {
     let mut budget: i64 = 3000;
-    let mut test = |c: &WCase, budget: &mut i64| -> bool {
+    let test = |c: &WCase, budget: &mut i64| -> bool {
         if *budget <= 0 {
             return false;
         }
@@ -224,6 +225,7 @@ pub fn shrink_case(mut case: WCase, prop: &str, oracle: &str) -> WCase {
         // (1) drop whole steps
         let cfg = case.cfg.clone();
         let (profile, seed) = (case.profile.clone(), case.seed);
+        let final_fault = case.final_fault;
         let steps = ddmin(case.steps.clone(), |cand| {
             test(
                 &WCase {
@@ -231,6 +233,7 @@ pub fn shrink_case(mut case: WCase, prop: &str, oracle: &str) -> WCase {
                     seed,
                     cfg: cfg.clone(),
                     steps: cand.to_vec(),
+                    final_fault,
                 },
                 &mut budget,
             )
@@ -252,6 +255,13 @@ pub fn shrink_case(mut case: WCase, prop: &str, oracle: &str) -> WCase {
                 if test(&c, &mut budget) {
                     case = c;
                 }
+            }
+        }
+        if case.final_fault.is_some() {
+            let mut c = case.clone();
+            c.final_fault = None;
+            if test(&c, &mut budget) {
+                case = c;
             }
         }
         // (3) inside steps
@@ -408,7 +418,100 @@ impl Engine for WorldSim {
     fn run_seed(&self, profile: &str, seed: u64, prop: &str, want_case: bool) -> Report {
         let (case, out) = generate_and_run(profile, seed);
         let need = want_case || out.violation.is_some();
-        to_report(if need { Some(&case) } else { None }, out, prop)
+        if !case.cfg.faults || out.violation.is_some() {
+            return to_report(if need { Some(&case) } else { None }, out, prop);
+        }
+        // Fault enumeration (C19): the fault-free execution above ran under the strict oracle;
+        // now every destructor call the model predicted for every destroying operation (and for
+        // the world teardown) is made to panic, one execution per (operation, call) pair.
+        let sites = out.fault_sites.clone();
+        let mut total = to_report(if need { Some(&case) } else { None }, out, prop);
+        total.executions = 1;
+        let mut pairs: Vec<(u32, u16)> = vec![];
+        for (uid, n) in &sites {
+            for j in 0..*n {
+                pairs.push((*uid, j as u16));
+            }
+        }
+        let cap = 48usize;
+        let all = pairs.len();
+        if pairs.len() > cap {
+            // deterministic sample: always first and last call of every op, then a stride
+            let mut keep: Vec<(u32, u16)> = vec![];
+            for (uid, n) in &sites {
+                keep.push((*uid, 0));
+                if *n > 1 {
+                    keep.push((*uid, (*n - 1) as u16));
+                }
+            }
+            let stride = (pairs.len() / cap).max(1);
+            for (i, p) in pairs.iter().enumerate() {
+                if i % stride == (seed as usize % stride) && !keep.contains(p) {
+                    keep.push(*p);
+                }
+            }
+            keep.truncate(cap * 2);
+            pairs = keep;
+        }
+        total.counters.insert("fault_sites_predicted".into(), all as u64);
+        if all == pairs.len() && all > 0 {
+            *total.counters.entry("histories_with_all_fault_points_enumerated".into()).or_insert(0) += 1;
+        }
+        let mut variants: Vec<WCase> = vec![];
+        for (uid, j) in &pairs {
+            let mut c = case.clone();
+            if *uid == u32::MAX {
+                c.final_fault = Some(*j);
+            } else {
+                for st in c.steps.iter_mut() {
+                    if let Step::Op(o) = st {
+                        if o.uid == *uid {
+                            o.fault = Some(Fault { k: *j });
+                        }
+                    }
+                }
+            }
+            variants.push(c);
+        }
+        // plus one multi-fault execution (a fault at a random subset of the sites, one after
+        // the other - each disarms when it fires)
+        if sites.len() >= 2 {
+            let mut r = crate::rng::Rng::new(crate::rng::mix(&[seed, 0xFA17]));
+            let mut c = case.clone();
+            for st in c.steps.iter_mut() {
+                if let Step::Op(o) = st {
+                    if sites.iter().any(|s| s.0 == o.uid) && r.chance(1, 2) {
+                        o.fault = Some(Fault { k: r.below(64) as u16 });
+                    }
+                }
+            }
+            if r.chance(1, 2) {
+                c.final_fault = Some(r.below(64) as u16);
+            }
+            variants.push(c);
+        }
+        for c in variants {
+            let o = replay(&c);
+            total.executions += 1;
+            let failed = o.violation.is_some();
+            let rep = to_report(if failed { Some(&c) } else { None }, o, prop);
+            for (k, v) in rep.counters {
+                *total.counters.entry(k).or_insert(0) += v;
+            }
+            for (k, v) in rep.sets {
+                total.sets.entry(k).or_default().extend(v);
+            }
+            total.trace_hash ^= rep.trace_hash.rotate_left(7);
+            if rep.nontrivial.is_some() && total.nontrivial.is_none() {
+                total.nontrivial = rep.nontrivial;
+            }
+            if failed {
+                total.violation = rep.violation;
+                total.case = rep.case;
+                break;
+            }
+        }
+        total
     }
 
     fn replay(&self, case: &serde_json::Value, prop: &str) -> Report {
